@@ -21,7 +21,10 @@ RULE = (
     "LsIncremental::try_restore, Analyzer::drop_file has returned on every path to Parser::parse / fragment_cache::restore unless the file "
     "was never seen (get_path_id is None); a failed restore drops again; on_remove drops. R3 filtering: the diagnostics published by "
     "on_change pass a filter comparing AnalyzerError::token_source() with the changed file's path id. R4 drop_file calls "
-    "symbol_table::drop before scope::drop_tokens (the stated precondition)."
+    "symbol_table::drop before scope::drop_tokens (the stated precondition). R5 a language-server function that reads a source file from disk to "
+    "analyse it does so only where document_map.contains_key(src) returned false. R6 in Server::serve the DidOpen and DidChange arms record "
+    "the message's own (url, text, version) in latest_change on every path after the handler. R7 in code statically reachable from "
+    "Analyzer::drop_file a match on the TokenSource of a Symbol's own token names File and Generated (both carry the file's path) together or not at all."
 )
 
 CRATES = ["veryl_parser", "veryl_analyzer", "veryl_metadata", "veryl_ls.bin", "veryl_cache", "veryl_path"]
@@ -189,6 +192,92 @@ def run(world, tier, info, only=None):
         ck.ob("R3", "published-diagnostics-filtered-by-file", okf and bool(pub), site(w.fns[OC]), "diagnostics of other files are filtered out by token_source() == path id of the changed file")
     else:
         ck.missing("R3", OC)
+    # ---------------- R5 open buffers are never re-read from disk ----------------------------------------------------
+    S = "veryl_ls::server::Server::"
+    n5 = 0
+    for p in sorted(ls):
+        sm = w.fns[p]
+        if not p.startswith(S) or not any((c["c"] or "").endswith("fs::read_to_string") or (c["c"] or "").endswith("fs::read") for c in sm["calls"]):
+            continue
+        if not any(c["c"] in (PARSE, RESTORE, "veryl_ls::incremental::LsIncremental::try_restore") for c in sm["calls"]):
+            continue   # reads that do not feed an analysis (configuration, manifests)
+        g = Fn(w.mir(p))
+        mg = MustFacts(g)
+        guards = [bi for bi, t in g.calls(r"HashMap<.*>::contains_key$|hash::map::HashMap.*::contains_key$|DashMap.*::contains_key$|::contains_key$")
+                  if flow.access_path(g, t["args"][0])[1][-1:] == ("document_map",)]
+        for bi, t in g.calls(r"^std::fs::(read_to_string|read)$"):
+            n5 += 1
+            F = mg.at_entry(bi) or ()
+            ok = any(a[0] == "ret" and a[1] in guards and a[2] is False for a in F)
+            ck.ob("R5", "open-buffer-not-read-from-disk:%s" % _short(p), ok, site(sm, t["l"]),
+                  "the file is read from disk only where document_map.contains_key(src) was false" if ok else
+                  "a source file is read from disk for analysis without (only) testing that it is not open in the editor (document_map): the saved "
+                  "contents of an open, edited file are analysed and its on-disk declarations replace the buffer's")
+    ck.floor("R5", "disk reads feeding an analysis in the language server", n5, 1)
+    # ---------------- R6 the re-publish after background analysis replays the latest buffer ------------------------------------
+    SV = S + "serve"
+    sv = [q for q in w.fns if q == SV or q.startswith(SV + "::{closure")]
+    n6 = 0
+    for q in sv:
+        g = Fn(w.mir(q))
+        heads = [h for h, t, some, none, item in flow.loops_over(g)] + list(getattr(g, "loop_heads", lambda: [])())
+        lc = {bi for bi, si, st in flow.field_writes(g, r"server::Server$", "latest_change")}
+        for bb, t in flow.enum_switches(g, r"MsgToServer$"):
+            for v, tgt, vn in t["vals"]:
+                if vn not in ("DidOpen", "DidChange"):
+                    continue
+                n6 += 1
+                # from the arm, the handler call and then a write of latest_change happen before the loop goes on
+                others = set()
+                for v2, tgt2, vn2 in t["vals"]:
+                    if tgt2 != tgt:
+                        others |= g.reach_from(tgt2, avoid=[bb])
+                hc = [bi for bi, tt in g.calls(r"server::Server::(did_open|did_change|on_change)$") if bi in g.reach_from(tgt, avoid=[bb]) and bi not in others]
+                ok = bool(hc)
+                for h in hc:
+                    nxt = g.blocks[h]["t"].get("to")
+                    esc = flow.escapes(g, nxt, sorted(lc), stops=[bb])
+                    if esc:
+                        ok = False
+                # and what is stored is this message's own payload
+                own = False
+                for bi, si, st in flow.field_writes(g, r"server::Server$", "latest_change"):
+                    if bi in g.reach_from(tgt, avoid=[bb]) and bi not in others:
+                        d = repr(g.describe(st[2][1], 10)) if st[2][0] == "use" else repr(st[2])
+                        own = own or (vn in d)
+                ck.ob("R6", "latest-change-recorded:%s" % vn, ok and own, site(w.fns[q], t["l"]),
+                      "after handling %s the server records this message's (url, text, version) as the latest change on every path" % vn if ok and own else
+                      "the %s arm can finish without recording the message as the latest change: the re-publish after background analysis replays an "
+                      "older text and version of the buffer" % vn)
+    ck.floor("R6", "DidOpen / DidChange arms in Server::serve", n6, 2)
+    # ---------------- R7 drop decisions treat every path-carrying token source alike ------------------------------------------
+    n7 = 0
+    for q in sorted(reach_d):
+        sm = w.fns.get(q)
+        if not sm or sm.get("alias_of") or not (q.startswith("veryl_analyzer::") or q.startswith("veryl_parser::") or q.startswith("<veryl_")):
+            continue
+        if sm["nblocks"] < 3:
+            continue
+        g = Fn(w.mir(q))
+        for bb, t in flow.enum_switches(g, r"veryl_token::TokenSource$"):
+            # only where the token is a symbol's own token: keyword tokens of declarations (Definition::get_path) are always read from a file
+            root = t["of"][0] if t.get("of") else None
+            try:
+                r, pth = flow.access_path(g, ["c", t["of"]])
+            except Exception:
+                continue
+            rl = r[1] if r[0] == "arg" else None
+            if rl is None or "symbol::Symbol" not in g.ty(rl):
+                continue
+            n7 += 1
+            tg = {vn: tgt for v, tgt, vn in t["vals"]}
+            carrying = [vn for vn in ("File", "Generated")]
+            explicit = [vn for vn in carrying if vn in tg]
+            ok = len(explicit) in (0, 2)
+            ck.ob("R7", "token-source-variants-alike:%s@%d" % (_short(q), n7), ok, site(sm, t["l"]),
+                  "File and Generated (both carry the file's path) are both matched explicitly, or neither" if ok else
+                  "%s has its own arm but %s falls into the wildcard arm: symbols or tokens whose source is the other path-carrying variant of the same "
+                  "file are not dropped" % (explicit[0], [x for x in carrying if x not in explicit][0]))
     ck.analysed = {"written": sorted(W), "dropped": sorted(D), "exempt": sorted(k for k in W if k in EXEMPT), "undecided": sorted(k for k in W if k in UNDECIDED)}
     return ck.finish(info)
 
